@@ -609,7 +609,7 @@ func (s *c19State) next() *c19Act {
 		if x == nil {
 			return nil
 		}
-		mode := rng.Intn(2)
+		mode := rng.Intn(3)
 		fnF := func(v float64) float64 { return v + 1 }
 		fnI := func(v int) int { return v + 1 }
 		a := &c19Act{name: "Apply", operand: []*c19T{x}}
@@ -617,6 +617,12 @@ func (s *c19State) next() *c19Act {
 		if mode == 1 {
 			opts = append(opts, tensor.UseUnsafe())
 			a.dest, a.operand, a.name = x, nil, "Apply(unsafe)"
+		}
+		if mode == 2 {
+			if r := s.pick(func(t *c19T) bool { return t != x && t.kind == x.kind && t.d.Size() == x.d.Size() && hasAxes(t) }); r != nil {
+				opts = append(opts, tensor.WithReuse(r.d))
+				a.dest, a.name = r, "Apply(reuse)"
+			}
 		}
 		a.run = func() error {
 			var r tensor.Tensor
@@ -626,7 +632,7 @@ func (s *c19State) next() *c19Act {
 			} else {
 				r, err = x.d.Apply(fnI, opts...)
 			}
-			if rd, ok := r.(*tensor.Dense); ok && err == nil && rd != x.d && len(s.live) < 8 && rng.Intn(2) == 0 {
+			if rd, ok := r.(*tensor.Dense); ok && err == nil && rd != x.d && (a.dest == nil || rd != a.dest.d) && len(s.live) < 8 && rng.Intn(2) == 0 {
 				a.created = append(a.created, s.add(rd, -1, x.kind))
 			}
 			return err
@@ -760,10 +766,31 @@ func (s *c19State) actProduct() *c19Act {
 		}
 		return err
 	}
+	// a live tensor of the right size as reuse destination (it may be lazily transposed, a view, column-major ...)
+	reuseOf := func(size int) []tensor.FuncOpt {
+		if rng.Intn(2) == 0 {
+			return nil
+		}
+		r := s.pick(func(t *c19T) bool { return t != x && t.kind == "f64" && t.d.Size() == size && hasAxes(t) })
+		if r == nil {
+			return nil
+		}
+		a.dest = r
+		a.name += "(reuse)"
+		return []tensor.FuncOpt{tensor.WithReuse(r.d)}
+	}
 	switch kind {
 	case 0:
 		a.name = "MatMul"
 		other := s.pick(func(t *c19T) bool { return t.kind == "f64" && t.d.Dims() == 2 && t.d.Shape()[0] == sh[1] })
+		cols := 2
+		if other != nil {
+			cols = other.d.Shape()[1]
+		}
+		opts := reuseOf(sh[0] * cols)
+		if a.dest != nil && a.dest == other {
+			a.dest, opts, a.name = nil, nil, "MatMul"
+		}
 		a.run = func() error {
 			o := other
 			if o == nil {
@@ -771,11 +798,22 @@ func (s *c19State) actProduct() *c19Act {
 			} else {
 				a.operand = append(a.operand, o)
 			}
-			return keep(x.d.MatMul(o.d))
+			r, err := x.d.MatMul(o.d, opts...)
+			if a.dest != nil {
+				return err
+			}
+			return keep(r, err)
 		}
 	case 1:
 		a.name = "MatVecMul"
-		a.run = func() error { return keep(x.d.MatVecMul(s.newTensor("f64", []int{sh[1]}, false))) }
+		opts := reuseOf(sh[0])
+		a.run = func() error {
+			r, err := x.d.MatVecMul(s.newTensor("f64", []int{sh[1]}, false), opts...)
+			if a.dest != nil {
+				return err
+			}
+			return keep(r, err)
+		}
 	case 2:
 		a.name = "TensorMul"
 		aa, ba := s.ownedInts("TensorMul-axesA", 1), s.ownedInts("TensorMul-axesB", 0)
